@@ -160,8 +160,12 @@ def dedupAdj : List AP → List AP
   | a :: b :: rest => if a = b then dedupAdj (b :: rest) else a :: dedupAdj (b :: rest)
 
 /-- relay part of `unlockedSort`: dedupe through a map, then `slices.SortFunc` with `Addr.Compare`. -/
+def dedup : List Addr → List Addr
+  | [] => []
+  | x :: xs => if xs.contains x then dedup xs else x :: dedup xs
+
 def sortRelays (l : List Addr) : List Addr :=
-  (l.eraseDups).mergeSort (fun a b => !(b.lt a))
+  (dedup l).mergeSort (fun a b => !(b.lt a))
 
 /-- `unlockedSort`. -/
 def sortAddrs (pref : List Prefix) (l : List AP) : List AP :=
